@@ -216,7 +216,7 @@ class C15(Prop):
         "markFragments_spec", "reverseComplement_spec", "reverseComplement_rejects", "addComment_addGF_spec",
         "simple_pk_roundtrip", "ct2simplewuss_total", "ct2simplewuss_ok_of_few_pk", "wuss_ct_simplewuss_ct_total",
         "wuss2ct_iff_class_labelling", "wussReverse_pairs", "reverseComplement_ss_pairs",
-        "columnSubset_ok_of_few_pk", "reasonableRF_cons_shape_partial", "wussNopseudo_pairs", "wussFull_total", "flushLeftInserts_inplace", "kh_roundtrip_pairs")]
+        "columnSubset_ok_of_few_pk", "reasonableRF_cons_shape_partial", "wussNopseudo_pairs", "wussFull_total", "flushLeftInserts_inplace", "kh_roundtrip_pairs", "transformed_wellformed", "generated_wf_side_conditions")]
     claimed = True
     technique = ("Lean 4 proof about an executable hand model of esl_msa.c / esl_wuss.c (in-place compaction loop = filter-by-mask on every aligned field, well-formedness invariants, "
                  "tag-table rebuild of SequenceSubset, mode-conversion and reverse-complement identities over alphabet tables regenerated from the tree, 27-stack WUSS reader = 27 Dyck recognisers, "
@@ -242,14 +242,14 @@ class C15(Prop):
                   "too (simple_pk_roundtrip); hence wuss->ct->wuss->ct and RemoveBrokenBasepairsFromSS are identity-or-documented-failure on EVERY balanced string (wuss_ct_wuss_ct_total, "
                   "removeBroken_total). compaction_pairs_exact + compaction_entry_points: after the repair + compaction of ColumnSubset / MinimGaps / NoGaps (digital DNA/RNA) / MinimGapsText / NoGapsText "
                   "(fix_bps) SS_cons and EVERY per-sequence SS spell exactly the pairs with both columns retained, renumbered by the column map, rows are the filtered original rows, alignment well formed. "
-                  "sequenceSubset_markup_exact: every slot of the subset's GS/GR tables is the slot of the retained sequence of that rank (sparse tags: none stays none). wuss2ct_iff_class_labelling: esl_wuss2ct returns ct IFF ct is a symmetric table and the string a class-nested labelling of it (complete characterisation of the reader); wussReverse_pairs: esl_wuss_reverse mirrors the pair set of every balanced string, hence reverseComplement_ss_pairs for SS_cons and every per-sequence SS; kh_roundtrip_pairs (wuss2kh then kh2wuss keeps the pair table), flushLeftInserts_inplace (the in-place two-counter loop of esl_msa_FlushLeftInserts, which the driver now runs, equals the left-to-right model the spec speaks about: b <= a is proved, no longer assumed), wussNopseudo_pairs (exactly the letter pairs removed) and wussFull_total (esl_wuss_full keeps the pair table of EVERY balanced string, letters included); columnSubset_ok_of_few_pk (repair + compaction cannot fail when every SS line has <= 26 pseudoknotted pairs); esl_msa_ReasonableRF with useconsseq=TRUE modelled (esl_abc_FCount into binary32 counts over degeneracy tables regenerated from the tree, esl_vec_FArgMax) and compared exactly. New specs: markFragments_spec "
+                  "sequenceSubset_markup_exact: every slot of the subset's GS/GR tables is the slot of the retained sequence of that rank (sparse tags: none stays none). wuss2ct_iff_class_labelling: esl_wuss2ct returns ct IFF ct is a symmetric table and the string a class-nested labelling of it (complete characterisation of the reader); wussReverse_pairs: esl_wuss_reverse mirrors the pair set of every balanced string, hence reverseComplement_ss_pairs for SS_cons and every per-sequence SS; kh_roundtrip_pairs (wuss2kh then kh2wuss keeps the pair table), flushLeftInserts_inplace (the in-place two-counter loop of esl_msa_FlushLeftInserts, which the driver now runs, equals the left-to-right model the spec speaks about: b <= a is proved, no longer assumed), wussNopseudo_pairs (exactly the letter pairs removed) and wussFull_total (esl_wuss_full keeps the pair table of EVERY balanced string, letters included); columnSubset_ok_of_few_pk (repair + compaction cannot fail when every SS line has <= 26 pseudoknotted pairs); esl_msa_ReasonableRF with useconsseq=TRUE modelled (esl_abc_FCount into binary32 counts over degeneracy tables regenerated from the tree, esl_vec_FArgMax) and compared exactly. transformed_wellformed: FlushLeftInserts / MarkFragments_old / Digitize / Textize keep the alignment well formed. New specs: markFragments_spec "
                   "(span rule of esl_msa_MarkFragments), reverseComplement_spec (field by field, well-formedness kept), addComment_addGF_spec. "
                   "Round 3: columnSubset_msa_sscons_pairs; esl_msa_Compare / CompareMandatory / CompareOptional = eslOK iff the documented fields agree; esl_msa_Hash / CheckUniqueNames; "
                   "esl_msa_Checksum = Jenkins hash of the concatenated rows; ConvertDegen2X / SymConvert / SetDefaultWeights; ReasonableRF (useconsseq=FALSE) shape; esl_sq_Digitize/Textize/"
                   "ReverseComplement/ConvertDegen2X. Round 2: pk_roundtrip (invariant over the rb[]/auxpk lettering loop). "
                   "Remaining: the exact predicate of ct2wuss_ok_iff is the lettering run itself (no closed form: a letter is re-used only past its right bound and letters grow within a batch); "
-                  "ReasonableRF: only the shape of the line is a theorem (thresholds / counts are floating point, L0; useconsseq=TRUE in text mode dereferences msa->abc == NULL: caller contract, "
-                  "no caller in easel). Trusted: Lean kernel + propext/Classical.choice/Quot.sound; fidelity of the hand model is checked, not proved, by the differential run; float thresholds of MarkFragments are evaluated by the driver (L0).")
+                  "ReasonableRF: only the shape of the line is a theorem (thresholds / counts are floating point, L0; useconsseq=TRUE in text mode dereferences msa->abc == NULL: KNOWN FINDING C15:esl_msa_ReasonableRF:text-useconsseq-null-abc, witness in the corpus, "
+                  "patch proposed in /var/tmp/fixes-proposed/C15-reasonablerf-text-consseq.patch; the generator never asks for it). Trusted: Lean kernel + propext/Classical.choice/Quot.sound; fidelity of the hand model is checked, not proved, by the differential run; float thresholds of MarkFragments are evaluated by the driver (L0).")
     diverge_is_violation = True
     fault_is_output = True       # faults are classified by monitor() (known finding vs. new)
     trusted_base = ["hand model of esl_msa.c/esl_wuss.c tied by exact field-by-field differential run (h_msaops.c, ASan+UBSan build of the working tree)",
@@ -260,7 +260,7 @@ class C15(Prop):
                    "MarkFragments thresholds evaluated in binary32/binary64 by the driver (L0); esl_msa_Copy modelled through Create+Copy only",
                    "esl_msa_Compare model: an optional per-sequence array is non-NULL iff one of its entries is (checked by the harness on every compared alignment, 'repinv='); "
                    "esl_DCompare_old / esl_FCompare_old are parameters of the model and the theorems, evaluated in binary64/binary32 by the driver (L0)",
-                   "esl_msa_ReasonableRF: both modes are modelled in digital mode, useconsseq=FALSE also in text mode (weight arithmetic a parameter: binary64 weights, binary32 counts in the driver, L0); useconsseq=TRUE on a TEXT alignment dereferences msa->abc == NULL in the C code (caller contract, never called that way inside easel): not exercised",
+                   "esl_msa_ReasonableRF: both modes are modelled in digital mode, useconsseq=FALSE also in text mode (weight arithmetic a parameter: binary64 weights, binary32 counts in the driver, L0); useconsseq=TRUE on a TEXT alignment dereferences msa->abc == NULL in the C code (known finding, one witness case in the corpus; not generated otherwise)",
                    "esl_sq.c: FetchFromMSA, Digitize, Textize, ReverseComplement, ConvertDegen2X are modelled on the observable content of the sequence object (name/acc/desc/source, residues, ss, extra "
                    "markup, start/end, mode)",
                    "not modelled: esl_msa_Sample, esl_msa_GuessAlphabet, esl_msa_Format* (printf wrappers over the modelled Set*), esl_msa_Expand/Sizeof, esl_sq_Copy/Compare/Grow/Block*/CountResidues/Checksum"]
